@@ -4,3 +4,4 @@ pub mod c22;
 pub mod probe;
 pub mod hist;
 pub mod traceops;
+pub mod execcorr;
